@@ -9,6 +9,7 @@ this pass returns, so newer surface syntax is read as the core statements it abb
   the case body.  A statement that uses a pattern outside this set (star, mapping, positional
   class patterns of user classes, captures inside an or-pattern) is left as it is, and the engines
   report it as an idiom outside their subset (no verdict) -- never a guess.
+* the conditional update ``x = A if c else x`` (or ``x = x if c else B``) becomes ``if c: x = A``.
 * an assignment expression (PEP 572) that is the first thing a statement evaluates
   (``if (x := f()) is None``, ``if not (m := P.match(s))``, ``while (y := g()) > 0``) is hoisted
   into an assignment in front of the statement.  Assignment expressions elsewhere (a later
@@ -384,6 +385,16 @@ def _split_ifexp(self, st):
     """x = A if c else B  ->  if c: x = A / else: x = B   (likewise return); x = x is dropped"""
     v = st.value
     if not isinstance(v, ast.IfExp):
+        return None
+    # only the conditional update  x = A if c else x  /  x = x if c else B  is rewritten (it is the
+    # statement 'if c: x = A'); other conditional expressions stay expressions, which is how the
+    # printer templates and the expression-helper inlining read them
+    tname = None
+    if isinstance(st, ast.Assign) and len(st.targets) == 1 and isinstance(st.targets[0], ast.Name):
+        tname = st.targets[0].id
+    elif isinstance(st, ast.AnnAssign) and isinstance(st.target, ast.Name) and st.simple:
+        tname = st.target.id
+    if tname is None or not any(isinstance(b_, ast.Name) and b_.id == tname for b_ in (v.body, v.orelse)):
         return None
     if isinstance(st, ast.Return):
         mk = lambda e: [ast.Return(value=e)]                      # noqa: E731
